@@ -285,7 +285,7 @@ def run_u_to_euler(u, desc, mod, modname, checks, tier):
     budget_s = (60 if lock else 150) if tier == 'quick' else 1500
     if lock and tier == 'quick':
         ctx.feas_timeout = 1.5
-    leaves, exh = ctx.explore(body, max_paths=budget_paths, max_seconds=budget_s, catch=(ValueError, AssertionError, ZeroDivisionError))
+    leaves, exh = ctx.explore(body, max_paths=budget_paths, max_seconds=budget_s, catch=(ValueError, AssertionError, ZeroDivisionError, TypeError))
     u.exhaustive = exh
     u.decisions = ctx.decisions
     qt = int(__import__("os").environ.get("C03_QT", "0")) or ((4 if region.startswith('lock') else 15) if tier == "quick" else 120)
